@@ -249,7 +249,7 @@ def oracle_search(ctx, corr, broken):
     if env[2]:
         return None         # the publication statements were not found: stalls cannot be classified on this code
     known = getattr(ctx, "known_signatures", set())
-    deadline = time.time() + ctx.budget(60, 600)
+    deadline = time.time() + ctx.budget(40, 600)
 
     def unlisted(run):
         return [s for s in ss.stalls_of(run) if s["signature"] not in known]
